@@ -54,7 +54,7 @@ def run_real(fn):
         return "err", classify_exc(e)
 
 
-def cmp(ctx, name, P, real, model_rep, conv, extra):
+def cmp(ctx, name, P, real, model_rep, conv, extra, tag=None):
     ctx.count("transform", name)
     status = model_rep[0]
     rp = {"transform": name, "program": P.describe(), "prog_sx": sx(P.to_sx()), **extra}
@@ -72,7 +72,7 @@ def cmp(ctx, name, P, real, model_rep, conv, extra):
     if got != exp:
         ctx.violation(f"{name}: output dictionary differs from the specified linear map: implementation "
                       f"{ {k: [[str(x) for x in r] for r in v] if v and isinstance(v[0], list) else [str(x) for x in v] for k, v in got.items()} } "
-                      f"vs model { {k: str(v) for k, v in exp.items()} }", rp)
+                      f"vs model { {k: str(v) for k, v in exp.items()} }", rp, tag=tag)
         return False
     return True
 
@@ -115,6 +115,21 @@ def one_program(ctx: Ctx, P):
             Gradients({ts[o]: cots[o] for o in outs})))
         rep = drv.ask(base + [["op", "grad", outs, ins], ["input", *[[o, flat(cots[o])] for o in outs]]])
         cmp(ctx, "Grad", P, real, rep, gconv, {"outs": outs, "ins": ins})
+        # degenerate key counts: nothing to differentiate (the vector-Jacobian product of NO cotangent is zero), or
+        # nothing to differentiate with respect to (empty result)
+        if rng.random() < 0.25:
+            junk = torch.full((64,), 7.0, dtype=DT)       # make recycled memory visibly non-zero
+            del junk
+            real = run_real(lambda: Grad([], [ts[i] for i in ins], retain_graph=True)(Gradients({})))
+            rep = drv.ask(base + [["op", "grad", [], ins], ["input"]])
+            cmp(ctx, "Grad", P, real, rep, gconv, {"outs": [], "ins": ins}, tag="F7-grad-no-outputs-uninitialised")
+            real = run_real(lambda: Jac([], [ts[i] for i in ins], rng.choice([None, 1, 2]), retain_graph=True)(Jacobians({})))
+            rep = drv.ask(base + [["op", "jac", [], ins, "none"], ["input"]])
+            cmp(ctx, "Jac", P, real, rep, jconv, {"outs": [], "ins": ins})
+            real = run_real(lambda: Grad([ts[o] for o in outs], [], retain_graph=True)(Gradients({ts[o]: cots[o] for o in outs})))
+            rep = drv.ask(base + [["op", "grad", outs, []], ["input", *[[o, flat(cots[o])] for o in outs]]])
+            cmp(ctx, "Grad", P, real, rep, gconv, {"outs": outs, "ins": []})
+            ctx.count("degenerate_key_counts")
         m = rng.choice([1, 2, 3, 5])
         jc = {o: ints(rng, (m,) + tuple(P.nodes[o].shape)) for o in outs}
         chunk = rng.choice([None, 1, 2, m, m + 1])
